@@ -288,8 +288,10 @@ class StubProcess:
 
 def check_run(ctx: Ctx, case: dict) -> None:
     mat, algo = case["mat"], case["algo"]
-    inst = sut("tsp Instance()", build_instance, mat)
+    buffers: list = []
+    inst = sut("tsp Instance()", build_instance, mat, 0, None, buffers)
     require(bool(inst.is_symmetric), "symmetric matrix not flagged symmetric")
+    buffers[0].fill(0)  # the caller re-uses its buffer (documented: copied)
     if algo == "ea":
         from moptipyapps.tsp.ea1p1_revn import TSPEA1p1revn
         alg = TSPEA1p1revn(inst)
